@@ -373,7 +373,11 @@ func leafSame(a, b route.Leaf) bool { return a == b }
 func TestProp(t *testing.T) {
 	evid.Rapid(t, "params", 4000, 60000, func(t *rapid.T) {
 		pool := gen.SegPoolW(t, 6, false, [3]int{15, 35, 85})
-		regs, _ := gen.RouteSet(t, gen.SetOpts{MaxRoutes: 6, Route: gen.RouteOpts{SegmentPool: pool}})
+		opts := gen.SetOpts{MaxRoutes: 6, Route: gen.RouteOpts{SegmentPool: pool}}
+		if evid.Thorough() {
+			opts.MaxRoutes, opts.Route.MaxSegs = 10, 6
+		}
+		regs, _ := gen.RouteSet(t, opts)
 		if rapid.IntRange(0, 5).Draw(t, "reservedname") == 0 {
 			// a route whose bind is literally named "route": the router accepts
 			// it; whether it is matched or tried and abandoned, handlers must
